@@ -139,6 +139,13 @@ func (v *VerifSession) Flush() {
 	v.s.SendAppMessages(v.s)
 }
 
+// ResetSeqTimeLogon is what CheckResetTime does when the configured ResetSeqTime is crossed while connected.
+func (v *VerifSession) ResetSeqTimeLogon() {
+	if v.s.State.IsConnected() {
+		_ = v.s.sendLogonInReplyTo(true, nil)
+	}
+}
+
 // Stop plays onAdmin(stopReq{}).
 func (v *VerifSession) Stop() { v.s.onAdmin(stopReq{}) }
 
